@@ -42,3 +42,71 @@ pub fn marker(i: usize, salt: usize) -> u8 {
 pub const EDGE32: [u32; 16] = [
     0, 1, 2, 3, 4, 7, 8, 9, 15, 16, 17, 0x7FFF_FFFF, 0x8000_0000, 0xFFFF_FFF7, 0xFFFF_FFF8, 0xFFFF_FFFF,
 ];
+
+/// One step of the specification's tag walk over a payload (the bytes after
+/// the 8-byte boot-information header).
+#[derive(Clone, Copy, Debug, PartialEq, Eq)]
+pub struct WalkItem {
+    pub off: usize,
+    pub typ: u32,
+    pub size: usize,
+}
+
+/// The spec-following walk: first tag at offset 0 of the payload, each next
+/// one at the previous offset plus its size rounded up to 8, until the end of
+/// the payload.  Returns the items and whether the walk must be refused after
+/// them (size below 8, or a tag that would leave the payload).
+pub fn walk(payload: &[u8]) -> (Vec<WalkItem>, bool) {
+    let mut items = Vec::new();
+    let mut off = 0usize;
+    let len = payload.len();
+    while off < len {
+        if off + 8 > len {
+            return (items, true);
+        }
+        let typ = rd32(payload, off);
+        let size = rd32(payload, off + 4) as usize;
+        if size < 8 {
+            return (items, true);
+        }
+        let next = off as u64 + ((size as u64 + 7) & !7);
+        if next > len as u64 {
+            return (items, true);
+        }
+        items.push(WalkItem { off, typ, size });
+        off = next as usize;
+    }
+    (items, false)
+}
+
+/// Header-crate walk: tags have a 16-bit type, 16-bit flags and 32-bit size.
+#[derive(Clone, Copy, Debug, PartialEq, Eq)]
+pub struct HWalkItem {
+    pub off: usize,
+    pub typ: u16,
+    pub flags: u16,
+    pub size: usize,
+}
+pub fn hwalk(payload: &[u8]) -> (Vec<HWalkItem>, bool) {
+    let mut items = Vec::new();
+    let mut off = 0usize;
+    let len = payload.len();
+    while off < len {
+        if off + 8 > len {
+            return (items, true);
+        }
+        let typ = rd16(payload, off);
+        let flags = rd16(payload, off + 2);
+        let size = rd32(payload, off + 4) as usize;
+        if size < 8 {
+            return (items, true);
+        }
+        let next = off as u64 + ((size as u64 + 7) & !7);
+        if next > len as u64 {
+            return (items, true);
+        }
+        items.push(HWalkItem { off, typ, flags, size });
+        off = next as usize;
+    }
+    (items, false)
+}
